@@ -17,11 +17,17 @@ LEVEL = {
          "The precision of (1) is that of go2eff's call graph. "),
  "C05": ("Partial. Theorems about an abstract interleaving model (any number of threads, any schedule, sequentially consistent heap): if no thread writes a location another touches, every thread reads what it reads alone, no schedule has a race, unwritten locations are unchanged. The hypotheses on the code are obligations over the effect summary go2eff regenerates from /repo's SSA (allowed shared writes, lock dominance of guarded fields, no compile-path writes to the set from execution). The harness runs k goroutines on shared templates in a -race build (child processes, halt_on_error) and compares each output with the sequential one and the model.",
          "Go memory model, sync.Mutex and atomics are assumed; the race detector sees only the interleavings that occur. "),
- "C06": ("Theorems for all byte strings: the lexer maps delimiter-free text to a single text token carrying it unchanged, and lexing a concatenation of independent fragments is the concatenation of their token lists (positions shifted) - the lexer half of the property. Partial: the render half (text/verbatim/comment/templatetag output, concatenation) is covered by the correspondence run of the full pipeline model and by the implementation-level oracle on every delimiter-free string up to length 3 over a 9-symbol alphabet and on generated fragment lists.",
+ "C06": ("Theorems for all byte strings: the lexer maps delimiter-free text to a single text token carrying it unchanged, and lexing a concatenation of independent fragments is the concatenation of their token lists (positions shifted) - the lexer half of the property. Render half: for every world, options and context a delimiter-free source renders to itself through the whole pipeline (lexer, parser, executor); lists of text/comment/verbatim fragments render to the concatenation of the texts and bodies; executing a concatenation of node lists writes the concatenation (and a prefix on failure); comment nodes write nothing, templatetag writes exactly the delimiter the regenerated table names. The correspondence run and the implementation-level oracle cover every delimiter-free string up to length 3 over a 9-symbol alphabet and generated fragment lists with variables.",
          ""),
  "C07": ("Theorems for all expression trees of the fragment: parsing the minimal-parentheses print of a tree gives back the tree (so precedence, associativity and unary binding are the documented ones, for any depth); evaluation equals the reference evaluator of the fully parenthesised reading; printing is canonical. Operator symbols/keywords come from tables regenerated from /repo. The correspondence run renders every tree with up to 3 operators (all operator pairs) and random deeper ones in the real engine and compares with the model and with an independent evaluator.",
          "Float formatting and pow follow hand-modelled Go library behaviour. "),
  "C08": ("Partial. Theorems: following static steps (names and integer indexes, paths of any length) through plain data equals the reference written from the property text - value, empty on a missing key / out-of-range index / nil on the way, execution error on a key or index of something that has none - and never panics; the first name is looked up in the tag-set context, then the caller's keys, then the set's globals. Computed subscripts, methods, function calls, pointers and Go-typed maps are checked by the harness's reference resolver on the real engine and (for the modelled value universe) by the correspondence run.",
+         ""),
+ "C12": ("Theorems for all node lists, states and fuel: evaluating any expression leaves the frame stack unchanged; executing any nodes leaves every frame below the current one and the current frame's public context untouched; with, for and include (and macro calls, Super) leave even the current frame's private bindings exactly as they were - what they bind lives in a child frame that is gone afterwards; set is visible to what follows at its level. One induction over the 17 mutually recursive executor functions. The correspondence run renders generated nestings with colliding names in the real engine, probing each name before/inside/after every construct against the model and a reference environment, and DeepEqual-compares the caller's Context and the set's Globals before/after.",
+         ""),
+ "C14": ("Theorems over the model's two executors and a specification of the four entry points with a failing writer (Spec/SpecWriter.v): the buffered and unbuffered executors return the same outcome and on success the same bytes (their only difference is that the buffered one hands out nothing on failure); with a sound writer all four variants give the same bytes or the same failure; for ANY writer ExecuteWriter leaves it untouched when execution fails, returns the writer's error exactly when the output does not fit, and otherwise appends exactly the output; what the unbuffered variant wrote on failure is the complete output of the completed leading nodes followed by the failing node's partial output. Partial: the entry-point wrappers are specified, not extracted; the harness runs all four real entry points with failure injection at every call position and writers failing at several limits and checks the same statements on the real engine; the executors underneath are correspondence-checked.",
+         ""),
+ "C19": ("Theorems for chains of any length: v|f1:a1|...|fn:an is evaluated left to right, each argument in the current state, (v|c1)|c2 = v|(c1 c2), parameterless chains are a fold of the filter function; the filter tag's chain is the same function as the expression chain and the tag writes what the chain gives on the rendered body; an unregistered filter in an expression and an unregistered tag are compile errors (Err 2), in the filter tag an execution error - never silent output (the compile-time claim is refuted for the filter tag with a witness, as the property text allows); the registered tables regenerated from /repo have no duplicates and every name has an implementation. The correspondence run applies chains at every expression position in the real engine and compares with composing the public ApplyFilter and with the model.",
          ""),
  "C16": None,
  "C18": ("Theorems for sequences of any length (lengths below 2^63, as Go guarantees): slice is Python slicing on lists and on strings counted in characters (bounds in a window checked exhaustively through the filter's own text-to-number conversion); length counts; first/last; ljust/rjust/center produce the requested width with spaces on the stated side and the text unchanged; truncatechars shape; divisibleby; no filter panics. The dispatch table name -> Go function is regenerated from /repo. The correspondence run applies every data filter to a value universe x arguments in the real engine and compares with the model and an independent reference. Partial: date/time, stringformat, title, non-ASCII case mapping rest on Go library tables (oracle only).",
